@@ -324,3 +324,117 @@ fn error_summary_into(e: &Error, out: &mut Vec<ErrorSummary>) {
 pub fn wire_value_parts(v: &WireValue) -> (u128, Option<u8>) {
     (v.bits, match v.width { WireWidth::Bits(n) => Some(n), WireWidth::Unlimited => None })
 }
+
+/// A string as one S-expression atom: the letter `x` followed by the UTF-8 bytes in lower-case hexadecimal
+/// (two digits each); the empty string is the atom `x`.
+pub fn hex_atom(s: &str) -> String {
+    let mut out = String::from("x");
+    for b in s.as_bytes() { write!(out, "{:02x}", b).unwrap(); }
+    out
+}
+
+fn span_sexp(span: (usize, usize)) -> String { format!("({} {})", span.0, span.1) }
+
+fn names_sexp(names: &Vec<String>) -> String {
+    let items: Vec<String> = names.iter().map(|n| hex_atom(n)).collect();
+    format!("({})", items.join(" "))
+}
+
+fn option_sexp(o: &Option<String>) -> String {
+    match *o {
+        Some(ref s) => format!("(some {})", hex_atom(s)),
+        None => String::from("(none)"),
+    }
+}
+
+/// An `Error` value serialised completely, on one line: `(Variant field ...)` with every field that
+/// `Error::format_for_contents` uses, in the order of the declaration of the variant.
+/// Strings are `hex_atom`s, spans are `(start end)`, locations are numbers, widths are numbers or `u` (unlimited),
+/// lists of strings are `(x.. x..)`, an optional string is `(some x..)` or `(none)`.  Of an expression only the span is
+/// used by the renderer, so an expression is serialised as its span.  `MismatchedMuxWidths` carries the spans of the
+/// options' values and the list of widths: `(MismatchedMuxWidths (options (s e) ..) (widths w ..))`.
+/// `MultipleErrors` carries the nested errors in order.  `IoError` / `FmtError` carry the text their `Display` gives.
+pub fn error_sexp(e: &Error) -> String {
+    match *e {
+        Error::MultipleErrors(ref v) => {
+            let mut out = String::from("(MultipleErrors");
+            for item in v { out.push(' '); out.push_str(&error_sexp(item)); }
+            out.push(')');
+            out
+        },
+        Error::MismatchedMuxWidths(ref options, ref widths) => {
+            let mut out = String::from("(MismatchedMuxWidths (options");
+            for option in options { out.push(' '); out.push_str(&span_sexp(option.value.span)); }
+            out.push_str(") (widths");
+            for w in widths { out.push(' '); out.push_str(&width_str(*w)); }
+            out.push_str("))");
+            out
+        },
+        Error::MismatchedExprWidths(ref a, wa, ref b, wb) =>
+            format!("(MismatchedExprWidths {} {} {} {})", span_sexp(a.span), width_str(wa), span_sexp(b.span), width_str(wb)),
+        Error::MismatchedWireWidths(ref name, wa, ref b, wb) =>
+            format!("(MismatchedWireWidths {} {} {} {})", hex_atom(name), width_str(wa), span_sexp(b.span), width_str(wb)),
+        Error::MismatchedRegisterDefaultWidths { ref bank, ref register_name, register_width, ref default_expression, expression_width } =>
+            format!("(MismatchedRegisterDefaultWidths {} {} {} {} {})", hex_atom(bank), hex_atom(register_name), width_str(register_width),
+                    span_sexp(default_expression.span), width_str(expression_width)),
+        Error::DuplicateRegister { ref bank, ref register_name } =>
+            format!("(DuplicateRegister {} {})", hex_atom(bank), hex_atom(register_name)),
+        Error::RuntimeMismatchedWidths() => String::from("(RuntimeMismatchedWidths)"),
+        Error::DivideByZero() => String::from("(DivideByZero)"),
+        Error::UndeclaredWireAssigned { ref name, span, ref close_name } =>
+            format!("(UndeclaredWireAssigned {} {} {})", hex_atom(name), span_sexp(span), option_sexp(close_name)),
+        Error::UndeclaredWireRead { ref name, ref expr, ref close_name } =>
+            format!("(UndeclaredWireRead {} {} {})", hex_atom(name), span_sexp(expr.span), option_sexp(close_name)),
+        Error::NonConstantWireRead(ref name, ref expr) =>
+            format!("(NonConstantWireRead {} {})", hex_atom(name), span_sexp(expr.span)),
+        Error::UnsetWire(ref name, span) => format!("(UnsetWire {} {})", hex_atom(name), span_sexp(span)),
+        Error::UnsetBuiltinWire(ref name) => format!("(UnsetBuiltinWire {})", hex_atom(name)),
+        Error::UnsetUndeclaredWire(ref name) => format!("(UnsetUndeclaredWire {})", hex_atom(name)),
+        Error::UnsetRegisterInputWire { ref name, register_span } =>
+            format!("(UnsetRegisterInputWire {} {})", hex_atom(name), span_sexp(register_span)),
+        Error::RedeclaredWire(ref name, a, b) => format!("(RedeclaredWire {} {} {})", hex_atom(name), span_sexp(a), span_sexp(b)),
+        Error::DoubleAssignedWire(ref name, a, b) => format!("(DoubleAssignedWire {} {} {})", hex_atom(name), span_sexp(a), span_sexp(b)),
+        Error::DoubleAssignedRegisterWire { ref name, register_span, assign_span } =>
+            format!("(DoubleAssignedRegisterWire {} {} {})", hex_atom(name), span_sexp(register_span), span_sexp(assign_span)),
+        Error::DoubleDeclaredRegisterOutWire { ref name, old_span, new_span } =>
+            format!("(DoubleDeclaredRegisterOutWire {} {} {})", hex_atom(name), span_sexp(old_span), span_sexp(new_span)),
+        Error::DoubleAssignedFixedOutWire { ref name, span, ref fixed_name } =>
+            format!("(DoubleAssignedFixedOutWire {} {} {})", hex_atom(name), span_sexp(span), hex_atom(fixed_name)),
+        Error::AssignedConstant { ref name, span, const_span } =>
+            format!("(AssignedConstant {} {} {})", hex_atom(name), span_sexp(span), span_sexp(const_span)),
+        Error::RedeclaredBuiltinWire { ref name, span, ref fixed_name } =>
+            format!("(RedeclaredBuiltinWire {} {} {})", hex_atom(name), span_sexp(span), hex_atom(fixed_name)),
+        Error::PartialFixedInput { ref name, ref found_inputs, ref missing_inputs } =>
+            format!("(PartialFixedInput {} {} {})", hex_atom(name), names_sexp(found_inputs), names_sexp(missing_inputs)),
+        Error::WireLoop(ref names) => format!("(WireLoop {})", names_sexp(names)),
+        Error::InvalidWireWidth(span) => format!("(InvalidWireWidth {})", span_sexp(span)),
+        Error::InvalidRegisterBankName(ref name, span) => format!("(InvalidRegisterBankName {} {})", hex_atom(name), span_sexp(span)),
+        Error::InvalidBitIndex(ref e, index) => format!("(InvalidBitIndex {} {})", span_sexp(e.span), index),
+        Error::NonBooleanWidth(ref e) => format!("(NonBooleanWidth {})", span_sexp(e.span)),
+        Error::NoBitWidth(ref e) => format!("(NoBitWidth {})", span_sexp(e.span)),
+        Error::MisorderedBitIndexes(ref e) => format!("(MisorderedBitIndexes {})", span_sexp(e.span)),
+        Error::InvalidConstant(span) => format!("(InvalidConstant {})", span_sexp(span)),
+        Error::WireTooWide(ref e) => format!("(WireTooWide {})", span_sexp(e.span)),
+        Error::ExpectedStatementFoundExpr(ref e) => format!("(ExpectedStatementFoundExpr {})", span_sexp(e.span)),
+        Error::UnterminatedComment(loc) => format!("(UnterminatedComment {})", loc),
+        Error::LexicalError(loc) => format!("(LexicalError {})", loc),
+        Error::InternalParserErrorNear(span, ref info) => format!("(InternalParserErrorNear {} {})", span_sexp(span), hex_atom(info)),
+        Error::MissingWireWidth(span) => format!("(MissingWireWidth {})", span_sexp(span)),
+        Error::WireAssignedInDeclaration(span) => format!("(WireAssignedInDeclaration {})", span_sexp(span)),
+        Error::MissingRegisterWidth(span) => format!("(MissingRegisterWidth {})", span_sexp(span)),
+        Error::AddedConstWidth(span) => format!("(AddedConstWidth {})", span_sexp(span)),
+        Error::MissingAssignmentMux(span) => format!("(MissingAssignmentMux {})", span_sexp(span)),
+        Error::RegisterDeclaredWithWire(span) => format!("(RegisterDeclaredWithWire {})", span_sexp(span)),
+        Error::NoMuxDefaultOption(ref e) => format!("(NoMuxDefaultOption {})", span_sexp(e.span)),
+        Error::MultipleMuxDefaultOption(ref e) => format!("(MultipleMuxDefaultOption {})", span_sexp(e.span)),
+        Error::UnreachableOptions(ref e) => format!("(UnreachableOptions {})", span_sexp(e.span)),
+        Error::EmptyFile() => String::from("(EmptyFile)"),
+        Error::UnparseableLine(ref line) => format!("(UnparseableLine {})", hex_atom(line)),
+        Error::InvalidToken(loc) => format!("(InvalidToken {})", loc),
+        Error::UnrecognizedToken { location, ref expected } =>
+            format!("(UnrecognizedToken {} {})", span_sexp(location), names_sexp(expected)),
+        Error::ExtraToken(span) => format!("(ExtraToken {})", span_sexp(span)),
+        Error::IoError(ref err) => format!("(IoError {})", hex_atom(&format!("{}", err))),
+        Error::FmtError(ref err) => format!("(FmtError {})", hex_atom(&format!("{}", err))),
+    }
+}
